@@ -506,6 +506,9 @@ class Effects:
                 if isinstance(n, ast.Call) and src_of(n.func) == "isinstance" and len(n.args) == 2 and src_of(n.args[0]) == nm:
                     for sub in ast.walk(n.args[1]):
                         if isinstance(sub, ast.Name):
+                            if sub.id in fi.locals:
+                                out.extend(self._class_alias(fi, sub.id) or [])
+                                continue
                             r = self.pkg.resolve_name(fi.module, fi, sub.id)
                             if r and r.startswith(PKG + "."):
                                 parts = r.split(".")
@@ -527,12 +530,57 @@ class Effects:
                 seen.append(o)
         return seen
 
+    def _class_expr(self, e, fi):
+        """classes denoted by a class-valued expression: X.__class__, type(X), X.type(), a package class name"""
+        if isinstance(e, ast.Attribute) and e.attr == "__class__":
+            return self._class_of(e.value, fi, {}) or None
+        if isinstance(e, ast.Call) and isinstance(e.func, ast.Attribute) and e.func.attr == "type" and not e.args:
+            return self._class_of(e.func.value, fi, {}) or None
+        if isinstance(e, ast.Call) and isinstance(e.func, ast.Name) and e.func.id == "type" and len(e.args) == 1:
+            return self._class_of(e.args[0], fi, {}) or None
+        if isinstance(e, ast.Name):
+            r = self.pkg.resolve_name(fi.module, fi, e.id)
+            if r and r.startswith(PKG + "."):
+                parts = r.split(".")
+                if len(parts) == 3 and parts[2] in self.pkg.modules[parts[1]].classes:
+                    return [(parts[1], parts[2])]
+        return None
+
+    def _class_alias(self, fi, name):
+        """a local name every assignment of which is a class-valued expression (`cls = self.__class__`)"""
+        if name in fi.params:
+            return None
+        out, found = [], False
+        for n in ast.walk(fi.node):
+            tg = []
+            if isinstance(n, ast.Assign):
+                tg = n.targets
+            elif isinstance(n, (ast.AugAssign, ast.AnnAssign, ast.For, ast.NamedExpr)):
+                tg = [n.target]
+            elif isinstance(n, (ast.With,)):
+                tg = [i.optional_vars for i in n.items if i.optional_vars is not None]
+            for t in tg:
+                for sub in ast.walk(t):
+                    if isinstance(sub, ast.Name) and sub.id == name:
+                        if not (isinstance(n, ast.Assign) and sub is t):
+                            return None
+                        c = self._class_expr(n.value, fi)
+                        if not c:
+                            return None
+                        found = True
+                        out.extend(x for x in c if x not in out)
+        return out if found else None
+
     def _ctor_class(self, call, fi):
         if not isinstance(call, ast.Call):
             if isinstance(call, ast.Subscript):
                 return self._class_of(call.value, fi, {})
             return None
         f = call.func
+        if isinstance(f, ast.Name) and f.id in fi.locals:
+            c = self._class_alias(fi, f.id)
+            if c:
+                return c
         if isinstance(f, ast.Name):
             r = self.pkg.resolve_name(fi.module, fi, f.id)
             if r and r.startswith(PKG + "."):
@@ -630,6 +678,10 @@ class Effects:
                 if cs.fi.parent is fi and cs.fi.name == f.id:
                     return self._apply_summary(cs.fi, args, kws, s, e)
         if isinstance(f, ast.Name):
+            if f.id in fi.locals:
+                c = self._class_alias(fi, f.id)
+                if c:
+                    return self._construct(c, args, kws, s, e)
             if f.id in env and f.id not in ("len", "int"):
                 # calling a local (lambda / nested def / parameter callable)
                 for q, cs in self.sum.items():
